@@ -3,6 +3,7 @@ package yqlib
 import (
 	"errors"
 	"io"
+	"strings"
 
 	yaml "gopkg.in/yaml.v3"
 )
@@ -13,6 +14,7 @@ type c19Writer struct {
 	fail   bool
 	writes *int
 	bytes  *int
+	text   *strings.Builder // when set, what was written
 }
 
 func (w c19Writer) Write(p []byte) (int, error) {
@@ -21,6 +23,9 @@ func (w c19Writer) Write(p []byte) (int, error) {
 		return 0, errors.New("write failed")
 	}
 	*w.bytes = *w.bytes + len(p)
+	if w.text != nil {
+		w.text.Write(p)
+	}
 	return len(p), nil
 }
 
@@ -170,3 +175,57 @@ func VerifC19FormatFromFilename() {
 }
 
 var _ io.Writer = c19Writer{}
+
+// VerifC19NulSeparated: with -0 (NUL separated output) every format that reports success has written the value
+// followed by one NUL — also the formats whose encoders buffer their output (csv, tsv, xml).
+func VerifC19NulSeparated() {
+	formats := []string{"csv", "tsv", "xml", "shell", "lua", "uri", "props"}
+	fi := verifChoice("format", len(formats))
+	f, err := FormatFromString(formats[fi])
+	if err != nil {
+		verifFail("C19/format-lookup")
+	}
+	x := verifStrN("x", 1, "az")
+	marker := "v" + x + "w"
+	var n *yaml.Node
+	switch formats[fi] {
+	case "csv", "tsv":
+		n = vSeq(vStr(marker), vStr("z"))
+	case "uri":
+		n = vStr(marker)
+	default:
+		n = vMap(vStr("k"), vStr(marker))
+	}
+	var text strings.Builder
+	w, b := 0, 0
+	printer := NewPrinter(f.EncoderFactory(), NewSinglePrinterWriter(c19Writer{writes: &w, bytes: &b, text: &text}))
+	printer.SetNulSepOutput(true)
+	errP := printer.PrintResults(vDoc(n).AsList())
+	label := "format=" + formats[fi]
+	if errP != nil {
+		verifCover("C19/nul/error")
+		return
+	}
+	out := text.String()
+	verifObserve("out", out)
+	verifAssert(strings.Contains(out, marker), "C19/nul-separated-output-lost-the-value "+label)
+	verifAssert(len(out) > 0 && out[len(out)-1] == 0, "C19/nul-separated-output-not-terminated-by-NUL "+label)
+	verifCover("C19/nul/end")
+}
+
+// VerifC19ExitStatusAlias: -e looks through aliases: a result that is an alias of false or null is no match.
+func VerifC19ExitStatusAlias() {
+	target, truthy := c19Scalar("t")
+	target.Anchor = "x"
+	doc := vDoc(vMap(vStr("t"), target, vStr("r"), &yaml.Node{Kind: yaml.AliasNode, Value: "x", Alias: target}))
+	var events []string
+	w, b := 0, 0
+	printer := NewPrinter(&c10Encoder{events: &events}, NewSinglePrinterWriter(c19Writer{writes: &w, bytes: &b}))
+	res, err := vEval(vParse(".r"), doc)
+	if err != nil || res.Len() != 1 {
+		verifFail("C19/eval")
+	}
+	verifAssert(printer.PrintResults(res) == nil, "C19/print-error")
+	verifAssert(printer.PrintedAnything() == truthy, "C19/exit-status-ignores-what-an-alias-stands-for")
+	verifCover("C19/alias/end")
+}
